@@ -815,6 +815,9 @@ func (ps *PeerState) SetHasProposal(proposal *types.Proposal) {
 	if ps.Proposal {
 		return
 	}
+	if proposal.BlockPartsHeader.Total <= 0 || proposal.BlockPartsHeader.Total > types.MaxBlockSize {
+		return // not a possible part count; do not size a bit array after it
+	}
 
 	ps.Proposal = true
 	ps.ProposalBlockPartsHeader = proposal.BlockPartsHeader
